@@ -960,6 +960,99 @@ pub fn unit_corpus() -> Vec<UnitCase> {
     v
 }
 
+
+// ------------------------------------------- finite-window recogniser ------
+/// Conservative recogniser of "the predicate confines the timestamp to a finite
+/// window": (lower bounded, upper bounded) of the set of timestamps on which
+/// `p` is TRUE (`neg` = on which it is FALSE).  Operands with a definite finite
+/// value (integer / timestamp literals, now()-relative, casts, calls) bound a
+/// side; a NULL operand makes the comparison never TRUE nor FALSE (empty set);
+/// a column operand and label atoms bound nothing.
+fn fin(p: &P, neg: bool) -> (bool, bool) {
+    let lit_kind = |l: &Lit| match l {
+        Lit::Other(6, _) => 2, // NULL
+        Lit::Other(7, _) => 0, // another column
+        _ => 1,
+    };
+    let cmp = |op: Op, l: &Lit, rev: bool| -> (bool, bool) {
+        match lit_kind(l) {
+            2 => (true, true),
+            0 => (false, false),
+            _ => {
+                let op = if rev {
+                    match op {
+                        Op::Lt => Op::Gt,
+                        Op::Le => Op::Ge,
+                        Op::Gt => Op::Lt,
+                        Op::Ge => Op::Le,
+                        o => o,
+                    }
+                } else {
+                    op
+                };
+                let op = if neg {
+                    match op {
+                        Op::Lt => Op::Ge,
+                        Op::Le => Op::Gt,
+                        Op::Gt => Op::Le,
+                        Op::Ge => Op::Lt,
+                        Op::Eq => Op::Ne,
+                        Op::Ne => Op::Eq,
+                    }
+                } else {
+                    op
+                };
+                match op {
+                    Op::Gt | Op::Ge => (true, false),
+                    Op::Lt | Op::Le => (false, true),
+                    Op::Eq => (true, true),
+                    Op::Ne => (false, false),
+                }
+            }
+        }
+    };
+    match p {
+        P::Cmp(op, l) => cmp(*op, l, false),
+        P::CmpR(op, l) => cmp(*op, l, true),
+        P::Between(n, a, b) => {
+            if lit_kind(a) == 2 || lit_kind(b) == 2 {
+                // a NULL end point: TRUE/FALSE only through the other comparison; stay conservative
+                (false, false)
+            } else if lit_kind(a) == 0 || lit_kind(b) == 0 {
+                (false, false)
+            } else if *n == neg {
+                (true, true)
+            } else {
+                (false, false)
+            }
+        }
+        P::Label(_) => (false, false),
+        P::And(a, b) | P::Or(a, b) => {
+            let (la, ha) = fin(a, neg);
+            let (lb, hb) = fin(b, neg);
+            let conj = matches!(p, P::And(..)) != neg;
+            if conj {
+                (la || lb, ha || hb)
+            } else {
+                (la && lb, ha && hb)
+            }
+        }
+        P::Not(a) => fin(a, !neg),
+    }
+}
+
+/// all filters together (rows pass every one of them) confine the timestamp
+pub fn finite_window(filters: &[P]) -> bool {
+    let mut lo = false;
+    let mut hi = false;
+    for f in filters {
+        let (l, h) = fin(f, false);
+        lo |= l;
+        hi |= h;
+    }
+    lo && hi
+}
+
 // ------------------------------------------------------------- shrinker ----
 pub fn shrink_pred(p: &P) -> Vec<P> {
     let mut out = Vec::new();
